@@ -10,7 +10,7 @@ from ..facets.poly import PolyFacet, Val
 from ..facets.pred import Pred
 from ..ir import walk
 from ..loader import AnalysisError
-from .common import is_ext_call, scatter_chain
+from .common import decision_list, disjoint_pieces, is_ext_call, scatter_chain
 from .eas_ctx import EasCtx
 from .units_common import report_conflicts, unit_facet
 
@@ -99,6 +99,23 @@ def run(ck, ctx):
         ths = [n for n in walk([costh]) if n.op == "Scatter" and in_eas(n) and
                is_ext_call(scatter_chain(n)[0], "numpy.full_like", "numpy.full")]
         tops = [n for n in ths if not any(m.op == "Scatter" and m.args[0] is n for m in ths)]
+        # the angle array is the one filled from the kernel's output
+        def from_kernel(v):
+            """v is the kernel's collected output itself, not something computed from another array"""
+            seen, stack, hit = set(), [v], False
+            while stack:
+                x = stack.pop()
+                if id(x) in seen:
+                    continue
+                seen.add(id(x))
+                if x.op == "ListOf":
+                    hit = True
+                    continue
+                if x.op == "Scatter":
+                    return False
+                stack.extend(x.args)
+            return hit
+        tops = [n for n in tops if any(from_kernel(sc.args[2]) for sc in scatter_chain(n)[1])]
         ok = False
         detail = f"{len(tops)} candidate array(s)"
         if len(tops) == 1:
@@ -190,48 +207,52 @@ def run(ck, ctx):
         ck.ob("R08.4", "enhanced angle == intrinsic angle x sqrt(2 x log-enhancement)",
               P.equal(P.of(enh), P.ref("t*sqrt(2*x)", {"t": P.of(intr), "x": P.of(le)})), enh, func,
               P.show(P.of(enh))[:200])
-        base, chain = scatter_chain(le)
-        if not chain and is_ext_call(le, "numpy.where") and len(le.args) == 4:
-            # where(c, a, b) is the same two-branch definition as two masked stores
-            c_, a_, b_ = le.args[1:4]
-            chain = [I.mk("Scatter", (le, c_, a_), None, le.site), I.mk("Scatter", (le, I.mk("UnaryOp", (c_,), "Invert"), b_),
-                                                                      None, le.site)]
-        two_branch = len(chain) == 2
+        # the log-enhancement as a piecewise function of the event (masked stores / where, in any spelling)
+        pr = Pred(I)
+        regs = disjoint_pieces(pr, decision_list(I, pr, le))
+        two_branch = len(regs) >= 2
         ck.ob("R08.4", "the log-enhancement is a two-branch function of PE/threshold (enhanced above the switch, "
-              "constant below)", two_branch, le, func, "" if two_branch else
+              "constant below)", two_branch, le, func, f"{len(regs)} region(s)" if two_branch else
               f"no switch found: the multiplier is sqrt(2 x {g.show(le, 3)}) for every event, so events with "
               "PE/threshold <= 2 are widened as well")
         if not two_branch:
             return
-        pr = Pred(I)
-        fs = [pr.formula(sc.args[1]) for sc in chain]
-        t = pr.tautology(("or",) + tuple(fs)) if len(fs) > 1 else (False, None)
+        undefined = [reg for reg, v in regs if v is None]
         ck.ob("R08.4", "both branches of the enhancement switch are filled (every event gets a multiplier)",
-              bool(t and t[0]), le, func, f"{len(chain)} store(s)")
+              not undefined, le, func, "; ".join(pr.show(r_)[:120] for r_ in undefined) or f"{len(regs)} region(s)")
         Pn = PolyFacet(I, opaque_ids={numPEs.id}, gather_transparent=True)
         envn = {"n": Pn.of(numPEs), "T": Pn.of(thr_n)}
+        # the switch atom: 2 < numPEs / threshold
+        switch = None
+        for reg, _v in regs:
+            for key in pr.atoms_of(reg):
+                kind, l, r_ = pr.atoms[key]
+                if kind == "lt" and l.op == "Const" and l.attr == 2 and Pn.equal(Pn.of(r_), Pn.ref("n/T", envn)):
+                    switch = ("atom", key)
+        ck.ob("R08.4", "the switch of the enhancement is numPEs / threshold > 2", switch is not None, le, func,
+              "; ".join(pr.show(reg)[:120] for reg, _v in regs))
+        if switch is None:
+            return
         n_br = 0
-        for sc in chain:
-            mask, val = sc.args[1], sc.args[2]
+        for reg, val in regs:
+            if val is None:
+                continue
             cz = Pn.of(val).rat.is_const()
+            n_br += 1
             if cz is not None:
-                n_br += 1
+                imp = pr.implies(reg, ("not", switch))
                 ck.ob("R08.4", "below the switch the multiplier is sqrt(2 x 0.5) = 1 (angle unchanged)",
-                      cz == Fraction(1, 2), sc, func, f"constant {cz}")
+                      cz == Fraction(1, 2) and bool(imp and imp[0]), val, func,
+                      f"constant {cz} where {pr.show(reg)[:160]}")
             else:
-                n_br += 1
+                imp = pr.implies(reg, switch)
                 ck.ob("R08.4", "above the switch the log-enhancement is ln(numPEs / photo_electron_threshold)",
-                      Pn.equal(Pn.of(val), Pn.ref("log(n/T)", envn)), sc, func, Pn.show(Pn.of(val))[:200])
-                prn = Pred(I)
-                f = prn.formula(mask)
-                at = prn.atoms_of(f)
-                ok = False
-                if f[0] == "atom" and len(at) == 1:
-                    kind, l, r = prn.atoms[at[0]]
-                    if kind == "lt" and l.op == "Const" and l.attr == 2:
-                        ok = Pn.equal(Pn.of(r), Pn.ref("n/T", envn))
-                ck.ob("R08.4", "the enhancement applies exactly when numPEs / threshold > 2", ok, mask, func,
-                      prn.show(f)[:200])
+                      Pn.equal(Pn.of(val), Pn.ref("log(n/T)", envn)), val, func, Pn.show(Pn.of(val))[:200])
+                ck.ob("R08.4", "the enhancement applies exactly when numPEs / threshold > 2", bool(imp and imp[0]),
+                      val, func, pr.show(reg)[:200])
+        cov = pr.tautology(("or",) + tuple(reg for reg, _v in regs))
+        ck.ob("R08.4", "the regions of the enhancement switch cover every event", bool(cov and cov[0]), le, func,
+              f"{len(regs)} region(s)")
         ck.floor("R08.4", n_br, 2, "branches of the enhancement switch")
         # unit: degrees into radians()
         uf = unit_facet(I)
